@@ -232,4 +232,52 @@ def c08_assert (e : Env) (o : Obs) : Bool :=
   | .panic => false
   | _ => true
 
+/-! ### C11 — discoverability follows request and store capability -/
+
+/-- the statement's table: full: as requested; non-discoverable only: never; forced: always -/
+def discoverableUnder (k : StoreKind) (rk : Bool) : Bool :=
+  match discOf k with
+  | .full => rk
+  | .onlyNonDiscoverable => false
+  | .forcedDiscoverable => true
+
+def refusesResidentKeys (k : StoreKind) : Bool :=
+  match discOf k with | .onlyNonDiscoverable => true | _ => false
+
+def savesOf (t : List EvObs) : List (Bytes × Option Bytes × Bytes × Bool) :=
+  t.filterMap (fun ev => match ev with
+    | .save c _ uh _ user rk _ _ _ => some (c, uh, user, rk)
+    | _ => none)
+
+/-- registration at CTAP level: a resident key asked of a store that holds only non-discoverable
+credentials is refused with nothing stored; otherwise the one credential stored holds the user handle
+exactly when it is discoverable under the store's capability, and the store saw the rk option asked for -/
+def c11_make (e : Env) (r : MakeReq) (o : Obs) : Bool :=
+  if r.rk && refusesResidentKeys e.kind then
+    !isOk o.res && (savesOf o.trace).isEmpty && o.store == e.pre
+      && (match o.res with | .panic => false | _ => true)
+  else
+    match o.res with
+    | .makeOk _ _ =>
+      (match savesOf o.trace with
+        | [(c, uh, user, rk)] =>
+          rk == r.rk && user == r.userId
+            && uh == (if discoverableUnder e.kind r.rk then some r.userId else none)
+            && (match o.store.find? (fun p => p.credId == c) with
+                | some p => p.userHandle == uh
+                | none => e.faulty)
+        | _ => false)
+    | .panic => false
+    | _ => true
+
+/-- assertion: a user handle is returned exactly when the credential used stores one (and it is that one) -/
+def c11_get (e : Env) (o : Obs) : Bool :=
+  match o.res with
+  | .getOk cred _ uh _ _ =>
+    (match e.pre.find? (fun p => p.credId == cred) with
+      | some p => uh == p.userHandle
+      | none => true)
+  | .panic => false
+  | _ => true
+
 end PasskeyVerif.Auth.Spec
